@@ -401,3 +401,8 @@ def run(rep, program: Program, tier: str) -> None:
     rep.isolate(rule_r3, rep, program, tier)
     rep.isolate(rule_r4, rep, program)
     rep.isolate(rule_r5_r6, rep, program)
+    # the constraint Jacobian / Gram matrix a projection reads from the state's cache must be those of the
+    # system doing the projection, not of another system object evaluated on the state before (shared with C09-R6)
+    from . import c09
+
+    rep.isolate(c09.rule_r6, rep, program, prop=PROP, rule="R7")
